@@ -352,6 +352,12 @@ impl PObs {
     pub fn ok<E: Glue>(v: &E) -> PObs {
         PObs::Ok { idx: v.idx(), fields: v.fields() }
     }
+    /// an error value of whatever type the derive chose: Debug rendering, and the carried input when
+    /// it is the harness's custom error type
+    pub fn err<X: fmt::Debug + 'static>(e: &X) -> PObs {
+        let carried = (e as &dyn std::any::Any).downcast_ref::<MyErr>().map(|m| m.0.clone());
+        PObs::Err { debug: format!("{:?}", e), carried }
+    }
 }
 
 // ---------------------------------------------------------------------------------------------
